@@ -2098,14 +2098,14 @@ int bufr_estimate_seq_length( BUFR_Sequence *seq, BUFR_Tables *tbls )
                   cb->descriptor , cb->flags, rep_desc, rep_cnt );
       bufr_print_debug( errmsg );
 #endif
-      if (cb->encoding.af_nbits > 0)
+      if (!(cb->flags & FLAG_SKIPPED) && (cb->encoding.af_nbits > 0))
          {
          nbits += cb->encoding.af_nbits;
 	 sprintf( errmsg, "descriptor= %d  af  nbits=%d\n", cb->descriptor, cb->encoding.af_nbits );
          bufr_print_debug( errmsg );
 	 }
 
-      if (cb->encoding.nbits > 0 )
+      if (!(cb->flags & FLAG_SKIPPED) && (cb->encoding.nbits > 0))
          {
          nbits += cb->encoding.nbits;
 	 sprintf( errmsg, "descriptor= %d   nbits=%d\n", cb->descriptor, cb->encoding.nbits );
